@@ -26,6 +26,7 @@ type Config struct {
 	HintValue  int64  `json:"hintValue"`
 	Headerless bool   `json:"headerless"`
 	DecJobs    int    `json:"decJobs"`
+	SkipBlocks bool   `json:"skipBlocks,omitempty"` // writer option: store incompressible blocks verbatim
 	WBuf       int    `json:"wbuf,omitempty"` // shared output bitstream buffer (0 = library default)
 	RBuf       int    `json:"rbuf,omitempty"` // shared input bitstream buffer (0 = library default)
 }
@@ -44,7 +45,11 @@ func GenBuf(t *sim.Tape) int {
 }
 
 func (c Config) Sig() string {
-	return fmt.Sprintf("%s/%s/b%d/j%d/c%d/%s/h%v/d%d", strings.ToUpper(c.Transform), strings.ToUpper(c.Entropy), c.BlockSize, c.Jobs, c.Checksum, c.Hint, c.Headerless, c.DecJobs)
+	sk := ""
+	if c.SkipBlocks {
+		sk = "/skip"
+	}
+	return fmt.Sprintf("%s/%s/b%d/j%d/c%d/%s/h%v/d%d%s", strings.ToUpper(c.Transform), strings.ToUpper(c.Entropy), c.BlockSize, c.Jobs, c.Checksum, c.Hint, c.Headerless, c.DecJobs, sk)
 }
 
 // CodecSig identifies the codec pair only.
@@ -65,6 +70,7 @@ type GenOpts struct {
 	Headerless  bool // allow headerless
 	MixedCase   bool // allow lower/mixed case names
 	MaxChain    int
+	SkipOpt     bool // allow the skipBlocks writer option
 	Geometry    bool // allow the special batch geometries (many blocks / big blocks)
 }
 
@@ -194,6 +200,9 @@ func GenConfig(t *sim.Tape, o GenOpts) Config {
 
 	if o.Headerless && t.Intn(6) == 5 {
 		c.Headerless = true
+	}
+	if o.SkipOpt && t.Intn(8) == 7 {
+		c.SkipBlocks = true
 	}
 
 	return c
